@@ -94,6 +94,91 @@ fn scenario(n: usize, k: usize, extra_chord: bool) -> Result<(), String> {
     Ok(())
 }
 
+/// second family: the payload's `Clone` itself unwinds inside `make_mut`'s clone branch (the program's
+/// handle is one of several).  Nothing may have happened: no value destroyed, every count as before, the
+/// held handle still designates the live original; dropping it afterwards collects the ring once.
+struct Cp {
+    id: usize,
+    canary: Cell<u64>,
+    clone_boom: Cell<bool>,
+    out: RefCell<Vec<Rc<Cp>>>,
+}
+impl Clone for Cp {
+    fn clone(&self) -> Self {
+        if self.clone_boom.get() {
+            panic!("clone boom {}", self.id);
+        }
+        Cp { id: self.id + 1000, canary: Cell::new(0xC0FFEE), clone_boom: Cell::new(false), out: RefCell::new(Vec::new()) }
+    }
+}
+impl Drop for Cp {
+    fn drop(&mut self) {
+        DESTROYED.with(|d| d.borrow_mut().push(self.id));
+        self.canary.set(0xDEAD);
+    }
+}
+
+fn clone_panics(n: usize, extra_handles: usize) -> Result<(), String> {
+    DESTROYED.with(|d| d.borrow_mut().clear());
+    let objs: Vec<Rc<Cp>> = (0..n)
+        .map(|id| Rc::new(Cp { id, canary: Cell::new(0xC0FFEE), clone_boom: Cell::new(false), out: RefCell::new(Vec::new()) }))
+        .collect();
+    for i in 0..n {
+        let h = Rc::clone(&objs[(i + 1) % n]);
+        unsafe { Rc::adopt_unchecked(&objs[i], &h) };
+        objs[i].out.borrow_mut().push(h);
+    }
+    objs[0].clone_boom.set(true);
+    let weaks: Vec<Weak<Cp>> = objs.iter().map(Rc::downgrade).collect();
+    let mut it = objs.into_iter();
+    let mut h = it.next().unwrap();
+    drop(it); // the program keeps one handle to member 0 (+ extras); the ring holds the other
+    let extras: Vec<Rc<Cp>> = (0..extra_handles).map(|_| Rc::clone(&h)).collect();
+    let (sc0, wc0) = (Rc::strong_count(&h), Rc::weak_count(&h));
+    let r = catch_unwind(AssertUnwindSafe(|| {
+        let _ = Rc::make_mut(&mut h);
+    }));
+    if r.is_ok() {
+        return Err(format!("clone-panic n={}: expected the panic of Clone to propagate out of make_mut", n));
+    }
+    let d = DESTROYED.with(|d| d.borrow().clone());
+    if !d.is_empty() {
+        return Err(format!("clone-panic n={} extra={}: values {:?} were destroyed although the program holds member 0", n, extra_handles, d));
+    }
+    if (Rc::strong_count(&h), Rc::weak_count(&h)) != (sc0, wc0) {
+        return Err(format!(
+            "clone-panic n={} extra={}: counts {}/{} before, {}/{} after the unwound make_mut",
+            n, extra_handles, sc0, wc0, Rc::strong_count(&h), Rc::weak_count(&h)
+        ));
+    }
+    if h.canary.get() != 0xC0FFEE || h.id != 0 {
+        return Err(format!("clone-panic n={}: held handle designates a destroyed or foreign value", n));
+    }
+    for (i, w) in weaks.iter().enumerate() {
+        match w.upgrade() {
+            Some(u) => {
+                if u.canary.get() != 0xC0FFEE {
+                    return Err(format!("clone-panic n={}: member {} destroyed", n, i));
+                }
+            }
+            None => return Err(format!("clone-panic n={}: Weak to live member {} does not upgrade", n, i)),
+        }
+    }
+    drop(extras);
+    drop(h);
+    let mut d = DESTROYED.with(|d| d.borrow().clone());
+    d.sort_unstable();
+    if d != (0..n).collect::<Vec<_>>() {
+        return Err(format!("clone-panic n={} extra={}: after the last drop the destroyed multiset is {:?}", n, extra_handles, d));
+    }
+    for w in &weaks {
+        if w.upgrade().is_some() {
+            return Err(format!("clone-panic n={}: a member survived the collection", n));
+        }
+    }
+    Ok(())
+}
+
 pub fn main() -> i32 {
     std::panic::set_hook(Box::new(|_| {}));
     let mut count = 0;
@@ -105,6 +190,15 @@ pub fn main() -> i32 {
                     println!("FAIL {}", e);
                     return 1;
                 }
+            }
+        }
+    }
+    for n in 1..=4 {
+        for extra in 0..=2 {
+            count += 1;
+            if let Err(e) = clone_panics(n, extra) {
+                println!("FAIL {}", e);
+                return 1;
             }
         }
     }
